@@ -38,6 +38,8 @@ type VerifEdit struct {
 	SeqNum     uint64
 	Trivial    bool
 	Version    []VerifTable // the newly installed version
+	// Read returns all entries of a table of the new version (valid only during the hook call).
+	Read func(VerifTable) ([]VerifEntry, error)
 }
 
 var verifCommitHook atomic.Value // func(*DB-less) : func(VerifEdit)
@@ -65,6 +67,7 @@ func verifCommitted(s *session, r *sessionRecord, nv *version, trivial bool) {
 		return
 	}
 	e := VerifEdit{Trivial: trivial, Version: verifDumpLevels(nv.levels)}
+	e.Read = func(t VerifTable) ([]VerifEntry, error) { return verifReadTable(s.tops, t) }
 	for _, t := range r.addedTables {
 		e.Added = append(e.Added, VerifTable{Level: t.level, Num: t.num, Size: t.size,
 			Imin: append([]byte(nil), t.imin...), Imax: append([]byte(nil), t.imax...)})
@@ -164,8 +167,12 @@ func VerifMemEntries(db *DB) (live, frozen []VerifEntry, hasFrozen bool) {
 
 // VerifTableEntries reads all entries of one live table file through the DB's table cache.
 func VerifTableEntries(db *DB, t VerifTable) ([]VerifEntry, error) {
+	return verifReadTable(db.s.tops, t)
+}
+
+func verifReadTable(tops *tOps, t VerifTable) ([]VerifEntry, error) {
 	tf := &tFile{fd: storage.FileDesc{Type: storage.TypeTable, Num: t.Num}, size: t.Size, imin: t.Imin, imax: t.Imax}
-	it := db.s.tops.newIterator(tf, nil, &opt.ReadOptions{DontFillCache: true, Strict: opt.StrictAll})
+	it := tops.newIterator(tf, nil, &opt.ReadOptions{DontFillCache: true, Strict: opt.StrictAll})
 	defer it.Release()
 	var out []VerifEntry
 	for it.Next() {
